@@ -674,6 +674,18 @@ func (s *storage) append(br blob.SizedRef, r io.Reader) error {
 
 	// to be able to undo the append
 	origOffset := s.size
+	// undoPartial removes what this call wrote to the pack when writing the
+	// record fails half-way: a partial record left in front of later appends
+	// makes the pack unwalkable (Reindex, StreamBlobs).
+	undoPartial := func() {
+		if _, seekErr := s.writer.Seek(origOffset, io.SeekStart); seekErr != nil {
+			log.Printf("ERROR seeking back to the original offset: %v", seekErr)
+		} else if truncErr := s.writer.Truncate(origOffset); truncErr != nil {
+			log.Printf("ERROR truncating file after write error: %v", truncErr)
+		} else {
+			s.size = origOffset
+		}
+	}
 
 	fn := s.writer.Name()
 	n, err := fmt.Fprintf(s.writer, "[%v %v]", br.Ref.String(), br.Size)
@@ -681,6 +693,7 @@ func (s *storage) append(br blob.SizedRef, r io.Reader) error {
 	writeVar.Add(fn, int64(n))
 	writeTotVar.Add(s.root, int64(n))
 	if err != nil {
+		undoPartial()
 		return err
 	}
 
@@ -700,12 +713,15 @@ func (s *storage) append(br blob.SizedRef, r io.Reader) error {
 	writeVar.Add(fn, int64(n))
 	writeTotVar.Add(s.root, int64(n))
 	if err != nil {
+		undoPartial()
 		return err
 	}
 	if n2 != int64(br.Size) {
+		undoPartial()
 		return fmt.Errorf("diskpacked: written blob size %d didn't match size %d", n, br.Size)
 	}
 	if err = s.writer.Sync(); err != nil {
+		undoPartial()
 		return err
 	}
 
